@@ -3,6 +3,7 @@ CONSTANTS
   GenMode = TRUE
   GenDepth = 4
   MaxT = 40
+  MaxReloads = 0
   MaxN = 2
   MaxAdm = 100
   RuleSets <- SetsSmall
